@@ -34,10 +34,10 @@ RESOURCE = (3,)          # CIF_MEMORY_ERROR
 INSERTS = ["\x00", "\x01", "\x0b", "\x0c", "\x1f", "\x7f", "\x80", "\x9f", "﻿", "￾", "￿", "﷐", "\ud800", "\udc00",
            "\udbff", "\udfff", "🿾", "[", "]", "{", "}", ":", "'", '"', "'''", '"""', ";", "\n;", "\n;\n", "#", "$", "_", "?", ".",
            " ", "\n", "\t", "\r", "\r\n", "\\", "\\\n", "data_", "data_x", "DATA_", "save_", "save_x", "loop_", "stop_", "global_", "_n",
-           "'k':", "\n;k\n;:", "a:b", ":v", "1", "é", "\U0001f600", "a" * 2050]
+           "'k':", "\n;k\n;:", "\n;k\x01y\n;:", "\n;\x01\n;:1", "'k\x01':", "a:b", ":v", "1", "é", "\U0001f600", "a" * 2050]
 
 SOUP = ["data_a", "data_B", "data_a", "data_", "save_f", "save_F", "save_", "loop_", "_a", "_A", "_b", "_c", "_", "1", "x", "?", ".", "'q'", '"q"',
-        "'''t'''", "\n;text\n;", "\n;k\n;:", "'k':", '"k":', "[", "]", "{", "}", "a:b", ":", ":v", "$x", "stop_", "global_", "#c\n", "\n", " ",
+        "'''t'''", "\n;text\n;", "\n;k\n;:", "\n;k\x01\n;:", "'k\x01':", "'k':", '"k":', "[", "]", "{", "}", "a:b", ":", ":v", "$x", "stop_", "global_", "#c\n", "\n", " ",
         "'unterminated", "'''open", "\n;open", "[1 2]", "{'k':1}", "{'k':[1 {'j':2}]}", "_d.e", "﻿", "\x01", "\ud800"]
 
 
